@@ -7,9 +7,9 @@ const SIGMA: [&str; 12] = ["0", "1", "5", "9", "+", "-", ".", "e", "E", " ", "x"
 
 fn one(s: &str, n: &mut u64, ok: &mut u64) {
     *n += 1;
-    let a = fpdec_core::str_to_dec(s);
+    #[cfg(feature = "hidden-parse")]
+    { let a = fpdec_core::str_to_dec(s); if a.is_ok() { *ok += 1; } }
     let b = fpdec::Decimal::from_str(s);
-    if a.is_ok() { *ok += 1; }
     if b.is_ok() { *ok += 1; }
 }
 
